@@ -215,6 +215,12 @@ func (b *built) body(n *Node) func(ctx context.Context, in map[string]any) (map[
 		case 1:
 			return nil, errors.New("node failure")
 		case 2:
+			if mix(rs.seed, uint64(n.ID)+977)&1 == 0 {
+				// a panic with a nil value is a panic of the node too (recover() returns nil for it unless
+				// the main module asks for go >= 1.21; fix 823ff5c)
+				var none error
+				panic(none)
+			}
 			panic("node panic")
 		case 5:
 			// the run is cancelled from inside a running step: the run loop must still collect the whole
@@ -773,6 +779,41 @@ func (engine) Generate(r *lib.Rng, tier string, i int) any {
 			}
 			c.Branches = append(c.Branches, Branch{From: from, Ends: ends, Sel: sel})
 		}
+		// one branch case in three: a further branch on a node that already carries one, sharing an end
+		// node with it (a node selected by one branch of a node and discarded by another one of the same
+		// node is not skipped; "contested" cases: the shared end is the contested node, selected here
+		// one time in two)
+		if len(c.Branches) > 0 && r.Chance(1, 3) {
+			b0 := c.Branches[0]
+			next := layers[layerOf(layers, b0.From)+1]
+			shared := b0.Ends[r.Intn(len(b0.Ends))]
+			if contested >= 0 && contains(b0.Ends, contested) {
+				shared = contested
+			}
+			ends := dedup(sortInts(append(pickSome(r, next, r.Range(1, 2)), shared)))
+			if len(ends) >= 2 {
+				var sel []int
+				for _, e := range ends {
+					if r.Chance(1, 2) {
+						sel = append(sel, e)
+					}
+				}
+				if c.Mode == "pregel" && len(sel) == 0 {
+					sel = ends[:1]
+				}
+				c.Branches = append(c.Branches, Branch{From: b0.From, Ends: ends, Sel: sel})
+			}
+		}
+		// a branch end is a pure branch target one time in three: no edge leads to it, its branch
+		// sources are its only control predecessors (Workflow: it then has no input at all; Graph: the
+		// branch hands it the output of its source)
+		for _, br := range c.Branches {
+			for _, e := range br.Ends {
+				if e != contested && r.Chance(1, 3) {
+					setPreds(c, e, nil)
+				}
+			}
+		}
 	}
 	// Workflows, one in three: the other two kinds of edges. Every edge that does not come from START is
 	// turned into a control-only edge (AddDependency: the successor waits for the node and gets nothing
@@ -794,11 +835,20 @@ func (engine) Generate(r *lib.Rng, tier string, i int) any {
 		for k := r.Range(0, 2); k > 0; k-- {
 			n := &c.Nodes[r.Intn(len(c.Nodes))]
 			var cand []int
-			for id := range ctlAncestors(c, n.ID) {
-				if id != idStart && !contains(n.Preds, id) && !contains(n.Ctl, id) && !contains(n.Dat, id) {
+			if r.Chance(1, 2) {
+				for id := range ctlAncestors(c, n.ID) {
 					cand = append(cand, id)
 				}
+			} else if l := layerOf(layers, n.ID); n.ID != idEnd && l >= 1 {
+				// any node of an earlier layer: cross-branch data access - the source may be skipped (the
+				// consumer then runs without it) or finish after the consumer's control predecessors
+				for _, layer := range layers[:l] {
+					cand = append(cand, layer...)
+				}
 			}
+			cand = filterInts(cand, func(id int) bool {
+				return id != idStart && id != n.ID && !contains(n.Preds, id) && !contains(n.Ctl, id) && !contains(n.Dat, id)
+			})
 			sort.Ints(cand)
 			if len(cand) > 0 {
 				n.Dat = sortInts(append(n.Dat, cand[r.Intn(len(cand))]))
@@ -1034,6 +1084,16 @@ func hasIndirectPath(c *Case, p, id int) bool {
 		}
 	}
 	return false
+}
+
+func filterInts(xs []int, keep func(int) bool) []int {
+	var out []int
+	for _, x := range xs {
+		if keep(x) {
+			out = append(out, x)
+		}
+	}
+	return out
 }
 
 func setPreds(c *Case, id int, ps []int) {
